@@ -327,6 +327,11 @@ impl SecondaryTransaction {
         if self.read_only {
             panic!("Txn is read-only but append is called");
         }
+        // an empty chunk (an `INSERT .. SELECT` that selects nothing) adds no RowSet: a RowSet
+        // without rows can not be flushed
+        if columns.cardinality() == 0 {
+            return Ok(());
+        }
         if self.mem.is_none() {
             let rowset_id = self.table.generate_rowset_id();
             let directory = self.table.get_rowset_path(rowset_id);
